@@ -32,5 +32,5 @@ CLAIMS['C10'] = ('other', 'proved (VCs from the real AST, heap-dictionary model)
                  'add/remove/dictionary_set/dictionary_delete/dictionary_pop/lookup through those contracts: an edit is refused exactly for a sibling owning the name / lower-cased identifier or an illegal EDIF identifier and then changes no table, '
                  'removal never refuses and drops exactly the element\'s entries, every other entry of every table is unchanged; '
                  'bounded: tables agree with a scan after every call of seeded histories under both policies (incl. clone, parse, policy switches)', _MIX + '; ' + _BN, _MT, 'DESIGN.md 0.1, 6/C10')
-CLAIMS['C07'] = ('other', 'proved: Wire.clone / InnerPin.clone / OuterPin.clone return a new, free-standing object of the same class, never raise, leave every existing object field-for-field as it was and preserve Inv, for all heaps satisfying Inv; '
-                 'bounded: netlist / library / definition / instance / port / cable clones against canon equality, identity-disjointness, pointer closure, snapshots and edit independence over seeded designs', _MIX + '; ' + _BN, _MT, 'DESIGN.md 0.1, 6/C07')
+CLAIMS['C07'] = ('other', 'proved: Wire / InnerPin / OuterPin / Port / Cable / Instance .clone return a new, free-standing object of the same class with its own new pins / wires / outer pins, faithful scalar attributes, data and reference, never raise, leave every existing object field-for-field as it was (Instance.clone joins its definition\'s reference set, as documented) and preserve Inv, for all heaps satisfying Inv; '
+                 'bounded: netlist / library / definition clones (and the element clones again) against canon equality, identity-disjointness, pointer closure, snapshots and edit independence over seeded designs', _MIX + '; ' + _BN, _MT, 'DESIGN.md 0.1, 6/C07')
